@@ -263,6 +263,10 @@ class DenseSparse:
     def csr_matrix(shape):
         return Mat(np.zeros(shape))
 
+    @staticmethod
+    def issparse(x):
+        return isinstance(x, Mat)
+
 
 class Block:
     """stand-in for a Block: composition and cross-section suffix (contracts of getNuclides / getMicroSuffix /
@@ -542,3 +546,64 @@ def default_cross_sections_are_zero_vectors(n: int, m: int):
     a2 = XSCollection.getDefaultXs(n)
     assert a.shape == (n,) and b.shape == (m,) and a2.shape == (n,)
     assert all(eq(a[g], 0.0) for g in range(n)) and all(eq(b[g], 0.0) for g in range(m)) and all(eq(a2[g], 0.0) for g in range(n))
+
+
+# ----------------------------------------------------------------------------- comparing two collections
+def vec_collection(ng, vals):
+    """a real XSCollection (real constructor) with the vector data fission, nGamma, total (no matrices)"""
+    c = XSCollection(parent=None)
+    c.fission, c.nGamma, c.total = arr(vals[0], ng), arr(vals[1], ng), arr(vals[2], ng)
+    return c
+
+
+@lemma(gen={"ng": (1, 2)}, overrides={"armi.nuclearDataIO.xsCollections:sparse": "DenseSparse"})
+def collections_compare_equal_exactly_when_their_data_agree(ng: int, a1: float, a2: float, b1: float, b2: float, c1: float, c2: float,
+                                                            x1: float, x2: float, y1: float, y2: float, z1: float, z2: float):
+    """XSCollection.compare (with utils.properties.areEqual / numpyHackForEqual) at zero tolerance on two collections
+    holding three vector reactions of 1..2 groups (enumerated): True exactly when every value agrees"""
+    ng = choose(ng, 1, 2)
+    A = vec_collection(ng, [[a1, a2], [b1, b2], [c1, c2]])
+    B = vec_collection(ng, [[x1, x2], [y1, y2], [z1, z2]])
+    same_data = all([[a1, a2][g] == [x1, x2][g] and [b1, b2][g] == [y1, y2][g] and [c1, c2][g] == [z1, z2][g] for g in range(ng)])
+    assert A.compare(B, None) == same_data
+    assert A.compare(A, None), "a collection equals itself"
+
+
+# ----------------------------------------------------------------------------- merging two collections
+ATTRS = ["fission", "nGamma", "total"]
+
+
+def masked_collection(mask, vals, tag):
+    c = XSCollection(parent=tag)
+    for k in range(3):
+        if (mask // (2 ** k)) % 2 == 1:
+            c[ATTRS[k]] = np.array([vals[k], vals[k] + 1.0])
+    return c
+
+
+def leading(c):
+    return [None if c[a] is None else c[a][0] for a in ATTRS]
+
+
+@lemma(gen={"ma": (0, 7), "mb": (0, 7)})
+def collection_merge_takes_the_data_of_the_only_assigned_side_or_refuses(ma: int, mb: int, x0: float, x1: float, x2: float, y0: float, y1: float,
+                                                                         y2: float):
+    """XSCollection.merge for every pair of subsets of three reactions assigned on the two sides (8 x 8, enumerated),
+    values symbolic: nothing assigned on one side -> the result holds exactly the other side's data, identical to
+    its source; data on both sides -> AttributeError and the target is unchanged (the documented rule: 'can only merge
+    if one hasn't been assigned at all' - never a silent combination, whether the reactions overlap or not)"""
+    ma = choose(ma, 0, 7)
+    mb = choose(mb, 0, 7)
+    A, B = masked_collection(ma, [x0, x1, x2], "A"), masked_collection(mb, [y0, y1, y2], "B")
+    a0, b0 = leading(A), leading(B)
+    try:
+        A.merge(B)
+        refused = False
+    except AttributeError:
+        refused = True
+    assert refused == (ma != 0 and mb != 0)
+    got = leading(A)
+    want = a0 if (refused or mb == 0) else b0
+    for k in range(3):
+        assert (got[k] is None) == (want[k] is None) and (want[k] is None or eq(got[k], want[k])), "identical to its source / unchanged"
+    assert all((p is None) == (q is None) and (p is None or eq(p, q)) for p, q in zip(leading(B), b0)), "the source is not changed"
